@@ -61,6 +61,15 @@ def generate(tier, rng):
                 tv.ser = ['w1', 'wrapped-long-%s' % ty.lower()]
             e.cis = False  # const_into_str cannot call the inner From impl in a const fn (rustc E0015); outside C11
             e.extra['shape'] = 'transparent/%s/%s' % (form, ty)
+    # default + serialize literals (spellings for EnumString only): Display still prints the captured value
+    for nser in (1, 2):
+        for form in ('tuple', 'named'):
+            e = new(['EnumString', 'Display'], ['parse', 'names'])
+            dv = VSpec(ident='Other', kind=form, ftypes=['String'], default=True, ser=['identifier', 'id-2'][:nser])
+            if form == 'named':
+                dv.fnames, dv.fdw = ['inner'], [None]
+            e.variants = others(n) + [dv]
+            e.extra['shape'] = 'default+serialize%d/%s' % (nser, form)
     # default and transparent in one enum
     e = new(['EnumString', 'Display', 'AsRefStr'], ['parse', 'names'])
     e.variants = [VSpec(ident='Wrap', kind='tuple', ftypes=['String'], tr=True)] + others(n) + \
